@@ -448,8 +448,17 @@ def graphBody (o : Opts) (rec : Node → St → R) (g : Graph) (st : St) : R :=
       | .error e => .error e
       | .ok (l2, st) => .ok (l1 ++ l2, st)
 
-/-- `_translate_if` -/
-def translateIf (o : Opts) (recIn : Node → St → R) (n : Node) (indent : Nat) (st : St) : R :=
+/-- `_translate_graph_body` of a subgraph together with its read set (fix ce0fc89): `_names_read` is the set of the
+    graph being translated — its outputs and the names read by its nodes, to nesting depth `d` — and the enclosing
+    graph's set is restored afterwards.  (For a main graph `_translate_graph` has already set the same set.) -/
+def graphBodyR (o : Opts) (d : Nat) (rec : Node → St → R) (g : Graph) (st : St) : R :=
+  let outer := st.namesRead
+  match graphBody o rec g { st with namesRead := g.outputs ++ namesReadBy d g.nodes } with
+  | .error e => .error e
+  | .ok (l, st) => .ok (l, { st with namesRead := outer })
+
+/-- `_translate_if`; `d` is the depth to which the names read inside the branches are collected. -/
+def translateIf (o : Opts) (recIn : Node → St → R) (d : Nat) (n : Node) (indent : Nat) (st : St) : R :=
   let (cond, st) := translateVarRef o st (n.ins.getD 0 "")
   match n.attrs with
   | [a0, a1] =>
@@ -457,17 +466,18 @@ def translateIf (o : Opts) (recIn : Node → St → R) (n : Node) (indent : Nat)
     -- fix e0cdb9e: a constant inlined in a branch is local to it — the table is saved here and restored after the
     -- assignments closing each branch (which may still refer to a constant of that branch)
     let outer := st.constants
-    match graphBody o recIn thenB st with
+    match graphBodyR o d recIn thenB st with
     | .error e => .error e
     | .ok (tl, st) =>
       let (ta, st) := emitAssign o (indent + 1) st n.outs thenB.outputs
       let st := { st with constants := outer }
-      match graphBody o recIn elseB st with
+      match graphBodyR o d recIn elseB st with
       | .error e => .error e
       | .ok (el, st) =>
         let (ea, st) := emitAssign o (indent + 1) st n.outs elseB.outputs
         let st := { st with constants := outer }
-        -- no output is read anywhere: the (checked) translation is dropped (fix 0215218)
+        -- no output is read in the enclosing graph (its own read set, fix ce0fc89): the (checked) translation is
+        -- dropped (fix 0215218)
         if !(n.outs.any (fun x => st.namesRead.contains x)) then .ok ([], st)
         else .ok ([line indent ("if " ++ cond)] ++ tl ++ ta ++ [line indent "else"] ++ el ++ ea, st)
   | _ => .error .ifAttrs
@@ -517,7 +527,7 @@ def translateLoop (o : Opts) (recIn : Node → St → R) (d : Nat) (n : Node) (i
       | .ok (h, st) =>
         -- fix e0cdb9e: a constant inlined in the loop body is local to the body
         let outer := st.constants
-        match graphBody o recIn body st with
+        match graphBodyR o d recIn body st with
         | .error e => .error e
         | .ok (bl, st) =>
           let r3 : Except Err (List String × St) :=
@@ -597,7 +607,7 @@ def translateNode (o : Opts) (opsets : List (String × Nat)) : Nat → Nat → N
     | some (.error e) => .error e
     | some (.ok st) => .ok ([], st)
     | none =>
-      if n.op == "If" then translateIf o (translateNode o opsets d (indent + 1)) n indent st
+      if n.op == "If" then translateIf o (translateNode o opsets d (indent + 1)) d n indent st
       else if n.op == "Loop" then translateLoop o (translateNode o opsets d (indent + 1)) d n indent st
       else if n.op == "Scan" then .error .scan
       else translatePlain o opsets n indent st
